@@ -4,7 +4,7 @@ set -e
 d=$(mktemp -d)
 cp coq/*.v "$d"/
 cd "$d"
-# files imported by others first: Chunks.v needs Bits.v; Rle.v needs Varint.v and BitPack.v
+# files imported by others first: Chunks.v and LowBit.v need Bits.v; Rle.v needs Varint.v and BitPack.v
 for f in Bits.v Varint.v BitPack.v; do timeout 120 coqc -Q . "" "$f" >/dev/null && echo "ok   $f"; done
 for f in *.v; do
   case "$f" in Bits.v|Varint.v|BitPack.v) continue;; esac
